@@ -81,22 +81,17 @@ func (l *Lexer) scanInLine() Token {
 		return l.scanComment()
 	case ch == '(':
 		if l.looksLikeVirtualAccount() {
-			l.advance()
-			return l.makeToken(TokenLParen, "(")
+			return l.scanPunct(TokenLParen, "(")
 		}
 		return l.scanCode()
 	case ch == ')':
-		l.advance()
-		return l.makeToken(TokenRParen, ")")
+		return l.scanPunct(TokenRParen, ")")
 	case ch == '[':
-		l.advance()
-		return l.makeToken(TokenLBracket, "[")
+		return l.scanPunct(TokenLBracket, "[")
 	case ch == ']':
-		l.advance()
-		return l.makeToken(TokenRBracket, "]")
+		return l.scanPunct(TokenRBracket, "]")
 	case ch == '|':
-		l.advance()
-		return l.makeToken(TokenPipe, "|")
+		return l.scanPunct(TokenPipe, "|")
 	case ch == '@':
 		return l.scanAt()
 	case ch == '=':
@@ -125,6 +120,13 @@ func (l *Lexer) scanInLine() Token {
 	default:
 		return l.scanText()
 	}
+}
+
+// scanPunct consumes a one-character token; the token covers that character.
+func (l *Lexer) scanPunct(typ TokenType, value string) Token {
+	startPos := l.position()
+	l.advance()
+	return Token{Type: typ, Value: value, Pos: startPos, End: l.position()}
 }
 
 func (l *Lexer) scanDate() Token {
